@@ -5,42 +5,47 @@ Open Scope list_scope.
 Open Scope Z_scope.
 
 (* the model's counterparts of what the harness observes on an admitted experiment *)
-Definition model_names (e : experiment) (algo suffix : string) : names :=
+Definition model_names (e : experiment) (algo suffix : string) (incfg : bool) : names :=
   {| n_algo := algo;
      n_algo_ok := dns1123_label algo && (String.length algo <=? 22)%nat;
      n_service_ok := dns1035_label (suggestion_resource_name (e_name e) algo);
      n_deploy_ok := dns_subdomain (suggestion_resource_name (e_name e) algo);
      n_suffix := suffix;
-     n_trial_ok := dns_subdomain (trial_name (e_name e) suffix) && dns1123_label (trial_name (e_name e) suffix) |}.
+     n_trial_ok := dns_subdomain (trial_name (e_name e) suffix) && dns1123_label (trial_name (e_name e) suffix);
+     n_algo_in_cfg := incfg |}.
 
 Definition model_run (en : env) (e : experiment) (asg : list (string * string)) : run :=
   {| r_asg := asg;
      r_impl := match apply_parameters en e asg with Ok _ => Ok tt | Err c => Err c | Crash s => Crash s end;
      r_wellformed := true |}.   (* decoding of the substituted text is not modelled *)
 
-Lemma model_names_agree e algo suffix : names_agree e (model_names e algo suffix) = true.
+Lemma model_names_agree e algo suffix incfg : names_agree e (model_names e algo suffix incfg) = true.
 Proof. unfold names_agree, model_names; cbn. now rewrite !Bool.eqb_reflx. Qed.
 
-Lemma monitor_model en e0 algo suffix asgs :
+Lemma monitor_model en e0 algo suffix incfg asgs :
   suffix <> "" -> forallb is_alnum (chars suffix) = true -> (String.length suffix <= 22)%nat ->
+  (* the algorithm name is a legal label, or it is katib-config's own spelling *)
+  (dns1123_label algo && (String.length algo <=? 22)%nat)%bool = true \/ incfg = true ->
   (admitted en e0 -> runnable en (set_default e0) /\ Forall (assignment_for (set_default e0)) asgs) ->
-  monitor true (set_default e0) (validate en (set_default e0)) (Some (model_names (set_default e0) algo suffix))
+  monitor true (set_default e0) (validate en (set_default e0)) (Some (model_names (set_default e0) algo suffix incfg))
           (map (model_run en (set_default e0)) asgs) = true.
 Proof.
-  intros SN SA SL Dom. unfold monitor. cbn [negb].
+  intros SN SA SL AC Dom. unfold monitor. cbn [negb].
   destruct (validate en (set_default e0)) as [[|x l]|c|s] eqn:V.
   - assert (A : admitted en e0) by exact V.
     rewrite (admitted_budget _ _ A), (admitted_derefs _ _ A). cbn [andb].
     destruct (admitted_name _ _ A) as [N L].
     apply andb_true_iff. split.
     + unfold names_ok, model_names; cbn.
-      destruct (dns1123_label algo && (String.length algo <=? 22)%nat)%bool eqn:AO; [|reflexivity].
+      unfold suggestion_resource_name, trial_name. change (e_name (set_default e0)) with (e_name e0).
+      destruct (derived_names (e_name e0) suffix N L (alnum_shape _ SN SA) SL) as (_ & T2 & T3).
+      cbn [String.append] in T2, T3.
+      destruct (dns1123_label algo && (String.length algo <=? 22)%nat)%bool eqn:AO;
+        [|destruct AC as [AC|AC]; [discriminate|rewrite AC, T2, T3; reflexivity]].
       apply andb_true_iff in AO. destruct AO as [AL A22]. apply Nat.leb_le in A22.
       unfold dns1123_label in AL. apply andb_true_iff in AL. destruct AL as [AS _].
-      unfold suggestion_resource_name, trial_name. change (e_name (set_default e0)) with (e_name e0).
       destruct (derived_names (e_name e0) algo N L AS A22) as (D1 & _ & D3).
-      destruct (derived_names (e_name e0) suffix N L (alnum_shape _ SN SA) SL) as (_ & T2 & T3).
-      cbn [String.append] in D1, D3, T2, T3. now rewrite D1, D3, T2, T3.
+      cbn [String.append] in D1, D3. now rewrite D1, D3, T2, T3.
     + destruct (Dom A) as [R F]. rewrite forallb_forall. intros r I. apply in_map_iff in I. destruct I as (asg & <- & Ia).
       rewrite Forall_forall in F. destruct (template_runs en e0 asg A R (F _ Ia)) as [m Hm].
       unfold run_ok, model_run; cbn. now rewrite Hm.
